@@ -282,6 +282,16 @@ def run(ck, F):
         sp_, root = spine(e)
         if root[0] in ("lit",):
             return [sp_ + ["<literal>"]]
+        if root[0] in ("ifelse", "match") and depth < 6:
+            # a value chosen by a test: whatever either branch can produce (an absent value produces nothing)
+            branches = [root[2], root[3]] if root[0] == "ifelse" else [v for _, v in root[2]]
+            out = []
+            for br in branches:
+                if og.nf_str(br) in ("None", "std::option::Option::None") or (isinstance(br, tuple) and br[0] == "const" and str(br[1]).endswith("::None")):
+                    continue
+                out += [sp_ + c for c in chains_of(br, root_ty, depth + 1 if depth else 0)]
+            if out:
+                return out
         owner = TY.owner_of_field(root, root_ty) if depth == 0 else None
         if owner is None and root[0] == "field":
             # second level: a summary value that reads another model field (e.g. Namespace.rust_mod_name)
